@@ -58,6 +58,16 @@ from pysmt.constants import (is_pysmt_fraction,
 from pysmt.utils import assert_not_none
 
 
+def _is_bool(type_: PySMTType) -> bool:
+    return type_.is_bool_type()
+
+def _is_arith(type_: PySMTType) -> bool:
+    return type_.is_int_type() or type_.is_real_type()
+
+def _is_bv(type_: PySMTType) -> bool:
+    return type_.is_bv_type()
+
+
 class FormulaManager(object):
     """FormulaManager is responsible for the creation of all formulae."""
 
@@ -166,7 +176,7 @@ class FormulaManager(object):
         """
         variables_tuple = tuple(variables)
         if len(variables_tuple) == 0:
-            return formula
+            return self._check_single_arg(formula, "ForAll", _is_bool)
         return self.create_node(node_type=op.FORALL,
                                 args=(formula,),
                                 payload=variables_tuple)
@@ -181,7 +191,7 @@ class FormulaManager(object):
         """
         variables_tuple = tuple(variables)
         if len(variables_tuple) == 0:
-            return formula
+            return self._check_single_arg(formula, "Exists", _is_bool)
         return self.create_node(node_type=op.EXISTS,
                                 args=(formula,),
                                 payload=variables_tuple)
@@ -250,7 +260,7 @@ class FormulaManager(object):
             raise PysmtTypeError("Cannot create a Times without arguments.")
 
         if len(tuple_args) == 1:
-            return tuple_args[0]
+            return self._check_single_arg(tuple_args[0], "Times", _is_arith)
         else:
             return self.create_node(node_type=op.TIMES,
                                     args=tuple_args)
@@ -439,7 +449,7 @@ class FormulaManager(object):
         if len(tuple_args) == 0:
             return self.TRUE()
         elif len(tuple_args) == 1:
-            return tuple_args[0]
+            return self._check_single_arg(tuple_args[0], "And", _is_bool)
         else:
             return self.create_node(node_type=op.AND,
                                     args=tuple_args)
@@ -458,7 +468,7 @@ class FormulaManager(object):
         if len(tuple_args) == 0:
             return self.FALSE()
         elif len(tuple_args) == 1:
-            return tuple_args[0]
+            return self._check_single_arg(tuple_args[0], "Or", _is_bool)
         else:
             return self.create_node(node_type=op.OR,
                                     args=tuple_args)
@@ -479,7 +489,7 @@ class FormulaManager(object):
             raise PysmtTypeError("Cannot create a Plus without arguments.")
 
         if len(tuple_args) == 1:
-            return tuple_args[0]
+            return self._check_single_arg(tuple_args[0], "Plus", _is_arith)
         else:
             return self.create_node(node_type=op.PLUS,
                                     args=tuple_args)
@@ -507,6 +517,8 @@ class FormulaManager(object):
            B -> !(C)
         """
         bool_exprs = self._polymorph_args_to_tuple(args)
+        if len(bool_exprs) == 1:
+            self._check_single_arg(bool_exprs[0], "AtMostOne", _is_bool)
         constraints = []
         for (i, elem) in enumerate(bool_exprs[:-1], start=1):
             constraints.append(self.Implies(elem,
@@ -548,6 +560,8 @@ class FormulaManager(object):
         exprs = self._polymorph_args_to_tuple(args)
         assert len(exprs) > 0
         if len(exprs) == 1:
+            # le(x, x) type-checks the single argument
+            le(exprs[0], exprs[0])
             return exprs[0]
         elif len(exprs) == 2:
             a, b = exprs
@@ -561,6 +575,8 @@ class FormulaManager(object):
         exprs = self._polymorph_args_to_tuple(args)
         assert len(exprs) > 0
         if len(exprs) == 1:
+            # le(x, x) type-checks the single argument
+            le(exprs[0], exprs[0])
             return exprs[0]
         elif len(exprs) == 2:
             a, b = exprs
@@ -707,6 +723,8 @@ class FormulaManager(object):
         if len(args) == 0:
             raise PysmtValueError("BVAnd expects at least one argument to be passed")
         res = args[0]
+        if len(args) == 1:
+            return self._check_single_arg(res, "BVAnd", _is_bv)
         for arg in args[1:]:
             res = self.create_node(node_type=op.BV_AND,
                              args=(res,arg),
@@ -720,6 +738,8 @@ class FormulaManager(object):
         if len(args) == 0:
             raise PysmtValueError("BVOr expects at least one argument to be passed")
         res = args[0]
+        if len(args) == 1:
+            return self._check_single_arg(res, "BVOr", _is_bv)
         for arg in args[1:]:
             res = self.create_node(node_type=op.BV_OR,
                              args=(res,arg),
@@ -791,6 +811,8 @@ class FormulaManager(object):
         if len(args) == 0:
             raise PysmtValueError("BVAdd expects at least one argument to be passed")
         res = args[0]
+        if len(args) == 1:
+            return self._check_single_arg(res, "BVAdd", _is_bv)
         for arg in args[1:]:
             res = self.create_node(node_type=op.BV_ADD,
                              args=(res,arg),
@@ -810,6 +832,8 @@ class FormulaManager(object):
         if len(args) == 0:
             raise PysmtValueError("BVMul expects at least one argument to be passed")
         res = args[0]
+        if len(args) == 1:
+            return self._check_single_arg(res, "BVMul", _is_bv)
         for arg in args[1:]:
             res = self.create_node(node_type=op.BV_MUL,
                              args=(res,arg),
@@ -1142,6 +1166,17 @@ class FormulaManager(object):
             self._normalizer = FormulaContextualizer(self.env)
 
         return assert_not_none(self._normalizer).walk(formula)
+
+    def _check_single_arg(self, arg: FNode, op_name: str, accepts: Callable[[PySMTType], bool]) -> FNode:
+        """Type-checks the argument of an n-ary operator applied to one argument.
+
+        In this case the argument itself is returned and no node is
+        created: therefore, the type-checker would not see it.
+        """
+        if not accepts(self.env.stc.get_type(arg)):
+            raise PysmtTypeError("Invalid type for the argument of %s: %s" %
+                                 (op_name, str(arg)))
+        return arg
 
     def _polymorph_args_to_tuple(self, args: Sequence[Union[FNode, Iterable[FNode]]]) -> Tuple[FNode, ...]:
         """ Helper function to return a tuple of arguments from args.
